@@ -874,11 +874,13 @@ func c08tokenRoles(src string) (map[string]int, string) {
 	ttlAlt := fmt.Sprintf("floor((2*%s))", "("+capv.String()+"/"+rate.String()+")")
 	wantNew := lite(allowed, lnode("-", filled, allowed.args[0]), filled).String()
 	got := map[string][2]string{}
+	stored := map[string]*lsym{}
 	for _, c := range setex {
 		if len(c.args) != 4 {
 			return nil, fmt.Sprintf("malformed %s", c)
 		}
 		got[c.args[1].String()] = [2]string{c.args[2].String(), c.args[3].String()}
+		stored[c.args[1].String()] = c.args[3]
 	}
 	tk, sk := fmt.Sprintf("KEYS[%d]", roles["tokensKey"]), fmt.Sprintf("KEYS[%d]", roles["tsKey"])
 	for _, k := range []string{tk, sk} {
@@ -893,8 +895,34 @@ func c08tokenRoles(src string) (map[string]int, string) {
 	if got[tk][1] != wantNew {
 		return nil, fmt.Sprintf("the stored level is %s, expected %s (debit exactly the granted tokens, nothing when refused)", got[tk][1], wantNew)
 	}
-	if got[sk][1] != diff.args[0].String() {
-		return nil, fmt.Sprintf("the stored timestamp is %s, expected now", got[sk][1])
+	// the stored timestamp is max(now, ts) - decided by evaluating the stored expression for
+	// concrete pairs (now, ts) on both sides of now == ts, whatever its spelling (math.max,
+	// an explicit clamp, ts + max(0, now - ts), ...). ts = 0 stands for the absent key.
+	nowS, tsS := diff.args[0].String(), ts.String()
+	for _, pr := range [][2]float64{{100, 0}, {100, 98}, {100, 99}, {100, 100}, {100, 101}, {100, 107}, {3, 100}, {1700000100, 1700000101}, {1700000101, 1700000100}} {
+		now, last := pr[0], pr[1]
+		v, _, k := luaValue(stored[sk], func(x *lsym) (float64, bool) {
+			switch x.String() {
+			case nowS:
+				return now, true
+			case tsS:
+				return last, true
+			}
+			return 0, false
+		})
+		if k != 1 {
+			return nil, fmt.Sprintf("the stored timestamp is %s, which is not computed from now and the timestamp read (expected max(now, last refresh))", got[sk][1])
+		}
+		want := now
+		if last > want {
+			want = last
+		}
+		switch {
+		case v < last:
+			return nil, fmt.Sprintf("the stored timestamp is %s: with now = %v and a last refresh of %v it stores %v, older than the timestamp it read (expected max(now, last refresh) = %v). A caller whose second is older rewinds the refill clock, and the next caller with the newer second is credited rate x the same span again: more than burst + rate x t events are admitted between s and s+t", got[sk][1], now, last, v, want)
+		case v != want:
+			return nil, fmt.Sprintf("the stored timestamp is %s: with now = %v and a last refresh of %v it stores %v, expected max(now, last refresh) = %v (a span that was credited must not be credited again, and a span not yet credited must not be skipped)", got[sk][1], now, last, v, want)
+		}
 	}
 	return roles, ""
 }
